@@ -30,11 +30,12 @@ SPEC = dict(
     nontrivial=nontrivial,
     rule="cases = random histories on the real usageTracker behind a real Agent.sendUsageReport with a scripted OpAMP client: "
          "cumulative readings for the 4 signals (unchanged readings, zero readings, big values; counter restarts in 15% of cases), "
-         "whole send-loop iterations with outcome ok / pending-then-ok / fail / pending-then-fail in runs of 0-4 failures, Add calls "
+         "whole send-loop iterations against scripted SendCustomMessage answers (per call: accepted / pending / error, or a channel "
+         "never closed before shutdown; scripts a, pa, e, pe, pp, p, ppp, ppa, pep, ...) in runs of 0-4 failures, Add calls "
          "during the send, and (30% of cases) raw NewReport / completeSend / give-up interleavings; every op's answer (decoded OTLP "
          "payload, error class, number of SendCustomMessage calls, the tracker's three maps) is compared with the model; "
          "non-trivial = has a non-zero reading, a delivered report and a failed report; distinct by transcript hash",
-    trusted_base=["scripted OpAMP client (fake client.OpAMPClient: only SendCustomMessage, returns closed channels)",
+    trusted_base=["scripted OpAMP client (fake client.OpAMPClient: only SendCustomMessage; per-call answers accepted/pending/error, channel closed or never closed + shutdown)",
                   "pmetric.JSONUnmarshaler used to decode the report payload", "clockwork.FakeClock",
                   "Go map semantics (modelled as bags of contributions: entry exists iff a contribution of the signal exists)"],
     manifest=dict(
@@ -54,7 +55,7 @@ SPEC = dict(
     ),
     assumptions=["readings are non-negative integers below 2^53 so float64 arithmetic is exact (values of 2^63 and above, where int64 conversion misbehaves, are out of scope)",
                  "each usageTracker method is atomic (holds the tracker mutex); Add may interleave between NewReport and completeSend and does in the generated cases",
-                 "context cancellation during a send (agent shutdown) is not modelled: the loop ends there",
+                 "agent shutdown is modelled only as 'cancelled while waiting on a channel that never closes'; nothing is run or judged after it (the select is then a race)",
                  "'delivered' means SendCustomMessage returned no error and the returned channel was closed; the OpAMP transport itself is out of scope",
                  "only the four signals the agent reports are used (an unknown signal makes NewReport fail; the agent never adds one)"],
 )
